@@ -251,8 +251,15 @@ def h_send_direct(ctx, kind):
     group = kind == "group"
     to, mid = _jid(ctx, "to", group), H.zstr(ctx, "id")
     node, body = _plain_message(ctx, to, mid)
+    relayed = group and ctx.flag("stanza_still_names_the_original_author")
+    if relayed:
+        # a message received in a group and relayed with entity.forward(): the copy keeps the author in its participant attribute
+        hooks.sx_setitem(node.attributes, "participant", _jid(ctx, "author")) if H.sym(ctx) else node.attributes.__setitem__("participant", _jid(ctx, "author"))
     sl.send(node)
     obs = _envelope_obs(ctx, bottom.down, body, mid, to)
+    if group:
+        ms = [n for n in bottom.down if n.tag == "message"]
+        obs.append(("a message to a group is addressed to the whole group: the envelope names no participant", len(ms) == 1 and hooks.dict_get(ms[0].attributes, "participant") is None))
     n_enc = len([c for c in mgr.calls if c[0] in ("encrypt", "group_encrypt")])
     obs.append(("exactly one encryption per message (got %d)" % n_enc, n_enc == 1))
     obs.append(("plaintext stanza is kept for a later retry", len(sl.sentQueue) == 1 and sl.sentQueue[0] is node))
